@@ -219,6 +219,8 @@ def gen_tree(rng, depth, max_digits=12, max_exp=30, ops="+-*/^", zero_bias=0.08)
     left = gen_tree(rng, depth - 1, max_digits, max_exp, ops, zero_bias)
     if op == "^":
         right = gen_exponent(rng, depth - 1)
+        if right[0] == "lit" and abs(right[2]) >= 100:
+            left = ("lit",) + rng.choice([("2", Fraction(2)), ("3", Fraction(3)), ("-2", Fraction(-2)), ("1.5", Fraction(3, 2)), ("0.5", Fraction(1, 2)), ("10", Fraction(10)), ("-1", Fraction(-1)), ("7", Fraction(7))])
     elif rng.random() < zero_bias and op == "/":
         # a zero sub-result under '/'
         a = gen_literal(rng, 4, 0, allow_pct=False)
@@ -229,6 +231,10 @@ def gen_tree(rng, depth, max_digits=12, max_exp=30, ops="+-*/^", zero_bias=0.08)
 
 def gen_exponent(rng, depth):
     r = rng.random()
+    if r < 0.02:
+        # large exponents around byte / word boundaries of the exponent itself (2^256, 3^-512, 1.5^1000): square-and-multiply
+        # rewrites of the power loop go wrong at exactly these (seed C01-d); the size guard of ev() skips what gets too big
+        return int_lit(rng.choice([-1, 1, 1]) * rng.choice([100, 127, 128, 129, 255, 256, 257, 300, 511, 512, 513, 768, 1000, 1023, 1024, 1025, 2048]))
     if r < 0.06:
         return int_lit(rng.choice([-1, 1]) * rng.randint(9, 64))      # two-digit powers (the size guard of ev() skips what gets too big)
     if r < 0.7 or depth <= 0:
